@@ -440,6 +440,62 @@ fn extra_scenarios(seed: u64, shard: u64) -> (Env, Vec<Traced>) {
     (env, traces)
 }
 
+/// GT and GLV administration / keeper scenarios (world helpers written for the C30 / C45 monitors).
+fn gt_glv_scenarios() -> (Env, Vec<Traced>) {
+    use crate::world::gt::GtParams;
+    use gmsol_store::states::glv::UpdateGlvParams;
+    use gmsol_utils::glv::GlvMarketFlag;
+    let mut sim = Sim::new_traced(7, 0, 3);
+    let w = &mut sim.w;
+    let keeper = w.keeper;
+    let user = sim.users[0];
+    let _ = w.initialize_gt(&GtParams { decimals: 7, initial_minting_cost: 100 * UNIT / 10_000_000, grow_factor: UNIT + UNIT / 100, grow_step: 1_000_000_000, ranks: vec![10_000_000, 100_000_000, 1_000_000_000] });
+    let _ = w.toggle_gt_minting(0, true);
+    let _ = w.gt_set_order_fee_discount_factors(vec![0, UNIT / 100, UNIT / 50, UNIT / 20]);
+    let _ = w.gt_set_referral_reward_factors(vec![0, UNIT / 100, UNIT / 50, UNIT / 20]);
+    let _ = w.gt_set_exchange_time_window(3600);
+    let _ = w.prepare_user(user);
+    let _ = w.mint_gt_reward(keeper, user, 50_000_000);
+    let _ = w.update_gt_cumulative_inv_cost_factor(keeper);
+    let idx = w.svm.clock.unix_timestamp / 86_400;
+    if let Ok(vault) = w.prepare_gt_exchange_vault(keeper, idx) {
+        let _ = w.request_gt_exchange(user, vault, 10_000_000);
+        w.svm.warp(86_400 + 10);
+        let _ = w.confirm_gt_exchange_vault(keeper, vault, 0, None);
+        let _ = w.close_gt_exchange(keeper, user, vault);
+    }
+    sim.refresh_prices();
+    let w = &mut sim.w;
+    // GLV over the two SOL/USDC markets with different index tokens (0 and 3)
+    if let Ok(glv) = w.initialize_glv(0, &[0]) {
+        let _ = w.insert_glv_market(&glv, 3);
+        let mt0 = w.markets[0].market_token;
+        let _ = w.update_glv_market_config(&glv, mt0, Some(u64::MAX / 2), Some(u128::MAX / 4));
+        let _ = w.toggle_glv_market_flag(&glv, mt0, GlvMarketFlag::IsDepositAllowed, true);
+        let mt3 = w.markets[3].market_token;
+        let _ = w.update_glv_market_config(&glv, mt3, Some(u64::MAX / 2), Some(u128::MAX / 4));
+        let _ = w.toggle_glv_market_flag(&glv, mt3, GlvMarketFlag::IsDepositAllowed, true);
+        let _ = w.update_glv_config(&glv, UpdateGlvParams { min_tokens_for_first_deposit: None, shift_min_interval_secs: Some(0), shift_max_price_impact_factor: Some(UNIT), shift_min_value: Some(0) });
+        if let Ok(d) = w.create_glv_deposit(user, &glv, 0, 0, 2_000_000_000, 300_000_000, 0, 0) {
+            let _ = w.execute_glv_deposit(d, false);
+            let _ = w.close_glv_deposit(keeper, d);
+        }
+        if let Ok(s) = w.create_glv_shift(&glv, 0, 3, 1_000_000, 0) {
+            let _ = w.execute_glv_shift(s, false);
+            let _ = w.close_glv_shift(s);
+        }
+        let gt_bal = hostsvm::token::token_amount(&w.svm, &crate::world::glv::ata22(&user, &glv.glv_token)).unwrap_or(0);
+        if let Ok(wd) = w.create_glv_withdrawal(user, &glv, 0, gt_bal / 2, 0, 0) {
+            let _ = w.execute_glv_withdrawal(wd, false);
+            let _ = w.close_glv_withdrawal(keeper, wd);
+        }
+        let _ = w.remove_glv_market(&glv, 3);
+    }
+    let env = Env { store: w.store, admin: w.admin };
+    let traces = w.take_trace();
+    (env, traces)
+}
+
 fn run_shard(args: &Args, shard: u64, m: &mut Monitor) {
     let mut budget: BTreeMap<&'static str, u32> = BTreeMap::new();
     // Source 1: bootstrap + exchange workload
@@ -490,6 +546,14 @@ fn run_shard(args: &Args, shard: u64, m: &mut Monitor) {
         m.add("traced_transactions", traces2.len() as u64);
         for t in &traces2 {
             replay(m, &env2, t, &mut budget, shard);
+        }
+    }
+    // Source 4: GT / GLV administration and keeper scenarios
+    if shard % 4 == 1 {
+        let (env3, traces3) = gt_glv_scenarios();
+        m.add("traced_transactions", traces3.len() as u64);
+        for t in &traces3 {
+            replay(m, &env3, t, &mut budget, shard);
         }
     }
     for (name, n) in budget {
